@@ -39,6 +39,25 @@ func (p *Prog) staticCalleeInfo(info *types.Info, c *ast.CallExpr) *FuncInfo {
 	return fi
 }
 
+// funcOfObj returns the analysed function behind a function object (generic origin), nil for interface methods
+// and functions without a body in the module.
+func (p *Prog) funcOfObj(fn *types.Func) *FuncInfo {
+	if fn == nil {
+		return nil
+	}
+	fn = fn.Origin()
+	if sig, ok := fn.Type().(*types.Signature); ok && sig.Recv() != nil {
+		if _, isIface := sig.Recv().Type().Underlying().(*types.Interface); isIface {
+			return nil
+		}
+	}
+	fi := p.Funcs[fkey(fn)]
+	if fi == nil || fi.Decl == nil || fi.Decl.Body == nil {
+		return nil
+	}
+	return fi
+}
+
 // paramObjs lists the receiver (index -1) and parameters of a declared function as objects.
 func paramObjs(fi *FuncInfo) map[int]types.Object {
 	res := map[int]types.Object{}
